@@ -107,4 +107,12 @@ CLAIMED["C15"] = {
     "note": COMMON_NOTE + "json/yaml/pickle are modelled as the identity on encoded documents; file I/O is trusted.",
     "technique": T,
 }
+CLAIMED["C09"] = {
+    "text": "Section over an ARBITRARY argparse behaviour AP: parse_known_args = post(AP(plain ++ generated)); C09_frame (reject iff AP rejects, leftovers identical, "
+            "plain entries untouched), C09_no_leak / C09_keys (every dotted dest registered at set-up is popped; keys = plain keys + destinations (+ subgroups)), "
+            "C09_collision, C09_parents and C09_groups (full theorems since the two fix: commits, selected by regenerated facts), C09_help. The differential run "
+            "against the stdlib twin is the property's own oracle.",
+    "note": COMMON_NOTE + "argparse itself is the universally quantified AP in the theorems and the real argparse in the correspondence.",
+    "technique": T,
+}
 NOT_CLAIMED = {}
